@@ -341,6 +341,21 @@ func runC20(tier string) int {
 		os.WriteFile(p, b, 0o644)
 		violations = append(violations, fmt.Sprintf("VIOLATION property=C20 replay=%s (%s)", p, desc))
 	}
+	// second family: publication consistency of the two symbol tables (c20pub.go)
+	pub := runC20Pub(l, tier)
+	if pub.broken != "" {
+		fmt.Println("CHECK-BROKEN:", pub.broken)
+		return 2
+	}
+	violations = append(violations, pub.violations...)
+	validated += pub.validated
+	queries += pub.queries
+	sat += pub.sat
+	unsat += pub.unsat
+	solverT += pub.solverT
+	samples = append(samples, pub.samples...)
+	encoded["object.GetSymHash (executed in the engine, event trace)"] = true
+	encoded["object.SymHash2Str (executed in the engine, event trace)"] = true
 	var enc []string
 	for f := range encoded {
 		enc = append(enc, f)
@@ -363,16 +378,18 @@ func runC20(tier string) int {
 			"package initialisers happen before any concurrent evaluation",
 			"a data race needs two threads: pairs of entry functions, one call each",
 			"a satisfiable schedule is confirmed by a generated go test -race stress test before it is reported",
+			"second family (symbol lookup consistency): the real GetSymHash / SymHash2Str are executed in the engine on a fresh symbol with event tracing; the traces (new-symbol path, known-symbol path, conversion) are the event lists of thread A = intern and thread B = intern the same symbol, then convert the hash; a read recorded as hit needs an earlier write of its key, a read recorded as miss has every write of its key later; the query asks for B's conversion read to precede every write of its key; a satisfiable schedule is confirmed by a native stress test (8 workers x 20000 fresh names x up to 4 rounds) before it is reported",
 		},
 		"coverage": map[string]interface{}{
 			"states": max1(len(entries)), "transitions": max1(queries), "traces_validated_against_impl": validated,
 			"samples": samples, "obligations": queries, "discharged": unsat,
 			"evaluations": max1(queries), "distinct_nontrivial": queries,
+			"event_traces":      pub.traces,
 			"rule":              "one query per pair of conflicting accesses (same package-level map, at least one write) in a pair of entry functions: timestamps for every lock/access event of both threads, program order, RW-mutex exclusion, and adjacency of the two accesses",
 			"exhaustive":        true,
 			"functions_encoded": enc, "entry_functions": entryNames,
 			"bounds":         map[string]interface{}{"threads": 2, "calls_per_thread": 1, "inline_depth": map[string]int{"quick": 3, "thorough": 5}[tier]},
-			"outside_bounds": []string{"races on anything other than package-level maps (struct fields, slices, PanObj.Pairs shared between goroutines)", "more than one call per thread (a race needs only two accesses)", "locks taken through interfaces or function values", "the HTTP server's handler goroutines are covered only through the table accessors they call"},
+			"outside_bounds": []string{"consistency between tables other than symHashTable / strTable", "races on anything other than package-level maps (struct fields, slices, PanObj.Pairs shared between goroutines)", "more than one call per thread (a race needs only two accesses)", "locks taken through interfaces or function values", "the HTTP server's handler goroutines are covered only through the table accessors they call"},
 			"solver":         map[string]interface{}{"binary": "z3 (one process per query)", "queries": queries, "sat": sat, "unsat": unsat, "unknown": 0, "time_s": solverT.Seconds()},
 		},
 	}
@@ -462,7 +479,11 @@ func c20Solve(q string) (string, string) {
 		fs := strings.Fields(strings.NewReplacer("(", " ", ")", " ").Replace(txt))
 		for i := 0; i+4 < len(fs); i++ {
 			if fs[i] == "define-fun" {
-				parts = append(parts, fs[i+1]+"="+fs[i+3])
+				v := fs[i+3]
+				if v == "-" {
+					v = "-" + fs[i+4]
+				}
+				parts = append(parts, fs[i+1]+"="+v)
 			}
 		}
 		sort.Strings(parts)
